@@ -216,6 +216,70 @@ def check_tensor_swap(case):
         "%dx%d" % (len(l), len(r))], show="Tensor.swap({}, {})".format(l, r))
 
 
+KINDS = ["bit", "digit3", "qubit", "qudit3"]
+
+
+def enum_cq_swaps(tier):
+    types = [[]] + [[k] for k in KINDS] + [[a, b] for a in KINDS
+                                            for b in KINDS]
+    for l in types:
+        for r in types:
+            if tier == "thorough" or len(l) + len(r) <= 3:
+                yield {"l": l, "r": r}
+
+
+def check_cq_swap(case):
+    """ Swaps of circuit types with classical and quantum wires of dimension
+    2 and 3, evaluated as classical-quantum maps: domain, permuted codomain
+    and the 0/1 array that moves every wire (quantum ones twice over). """
+    import numpy as np
+    from discopy.quantum import cqmap
+    from discopy.quantum.circuit import Circuit, Ty, Digit, Qudit, bit, qubit
+    wire = {"bit": bit, "qubit": qubit, "digit3": Ty(Digit(3)),
+            "qudit3": Ty(Qudit(3))}
+    dim = {"bit": 2, "qubit": 2, "digit3": 3, "qudit3": 3}
+
+    def ty(names):
+        return Ty().tensor(*[wire[n] for n in names]) if names else Ty()
+    l, r = case["l"], case["r"]
+    d = Circuit.swap(ty(l), ty(r))
+    F = cqmap.Functor()
+    out = d.eval(mixed=True)
+    what = "Circuit.swap({}, {}).eval(mixed=True)".format(ty(l), ty(r))
+
+    def cq(names):   # (classical dims, quantum dims) of a type
+        return ([dim[n] for n in names if n in ("bit", "digit3")],
+                [dim[n] for n in names if n in ("qubit", "qudit3")])
+    for got, names, end in ((out.dom, l + r, "dom"), (out.cod, r + l, "cod")):
+        c, q = cq(names)
+        require(list(got.classical) == c and list(got.quantum) == q
+                and got == F(ty(names)), "C10:cq-swap-" + end,
+                lambda: "{}: {} is {}, expected C({}) @ Q({})".format(
+                    what, end, got, c, q))
+    (cl, ql), (cr, qr) = cq(l), cq(r)
+    axes_in = cl + cr + ql + qr + ql + qr
+    axes_out = cr + cl + qr + ql + qr + ql
+    ref = np.zeros(tuple(axes_in + axes_out) or (), dtype=complex)
+    nc, nq = (len(cl), len(cr)), (len(ql), len(qr))
+    for idx in itertools.product(*[range(n) for n in axes_in]):
+        c1, c2 = idx[:nc[0]], idx[nc[0]:sum(nc)]
+        rest = idx[sum(nc):]
+        q1, q2 = rest[:nq[0]], rest[nq[0]:sum(nq)]
+        p1, p2 = rest[sum(nq):sum(nq) + nq[0]], rest[sum(nq) + nq[0]:]
+        ref[tuple(idx) + c2 + c1 + q2 + q1 + p2 + p1] = 1
+    got = np.asarray(out.array, dtype=complex)
+    require(got.size == ref.size and np.array_equal(
+        got.reshape(ref.shape), ref), "C10:cq-swap-not-realised", what)
+    direct = cqmap.CQMap.swap(F(ty(l)), F(ty(r)))
+    require(direct.dom == F(ty(l + r)) and direct.cod == F(ty(r + l))
+            and np.array_equal(np.asarray(direct.array).reshape(ref.shape),
+                               ref), "C10:cqmap-swap",
+            lambda: "CQMap.swap({}, {}): {} -> {}".format(
+                F(ty(l)), F(ty(r)), direct.dom, direct.cod))
+    return dict(nt=len(set(l + r)) >= 2, labels=["%dx%d" % (len(l), len(r))],
+                show=what)
+
+
 core.register("C10", [
     Facet("exhaustive", None, check_enum, enum=enum_cases, shards_quick=8,
           rule=RULE),
@@ -226,6 +290,10 @@ core.register("C10", [
           shards_quick=2, rule="Tensor.swap of blocks of 0-3 wires of "
           "dimension 2-3 against the explicit 0/1 array; non-trivial = blocks "
           "of different non-zero lengths"),
+    Facet("cq_swap", None, check_cq_swap, enum=enum_cq_swaps, shards_quick=4,
+          rule="Circuit.swap over bits, qubits and wires of dimension 3, "
+          "evaluated as a classical-quantum map: types and 0/1 array; "
+          "non-trivial = two different kinds of wire"),
 ], rule=RULE, assumptions=[
     "positions are tracked through the adjacent transpositions read from "
     "boxes/offsets; with all-distinct wire types the codomain also shows the "
